@@ -1,20 +1,7 @@
-/- C14: the table-wide checks of the Core family (closed computations checked by the kernel). -/
-import SimplicityModel.Gen.JetsCore
-import SimplicityModel.KernelRfl
+/- C14: the Core family passes every table-wide check (parts A and B). -/
+import SimplicityModel.C14.CoreA
+import SimplicityModel.C14.CoreB
 namespace C14.Core
 open JetTable JetTable.Family
-set_option maxRecDepth 20000
-
-theorem keys_tie : Gen.Core.family.rows.map (fun r => (r.name, r.src, r.tgt)) =
-    Gen.Core.family.keys.map (fun k => (strOfKey k.1, strOfKey k.2.1, strOfKey k.2.2)) := by kernel_rfl
-theorem enc_tie : Gen.Core.family.codes = Gen.Core.family.enc.map (fun e => Spk.bitsBE e.1 e.2) := by decide +kernel
-theorem decode : checkDecodeFrom Gen.Core.family.trie 0 Gen.Core.family.codes = true := by decide +kernel
-theorem leaves : checkLeaves Gen.Core.family.trie Gen.Core.family.codes.length = true := by decide +kernel
-theorem sorted : sortedBytes Gen.Core.family.nameBytes = true := by decide +kernel
-theorem ascii : allB isAscii Gen.Core.family.nameBytes = true := by decide +kernel
-theorem arms : checkArmsFrom 0 Gen.Core.family.parseArms Gen.Core.family.nameKeys = true := by decide +kernel
-theorem types : allB (fun k => (ctyOfName (bytesOfKey k.2.1)).isSome && (ctyOfName (bytesOfKey k.2.2)).isSome) Gen.Core.family.keys = true := by decide +kernel
-
 theorem checked : Gen.Core.family.Checked := ⟨keys_tie, enc_tie, decode, leaves, sorted, ascii, arms, types⟩
-theorem count : Gen.Core.family.rows.length = 368 := by decide +kernel
 end C14.Core
